@@ -347,6 +347,34 @@ fn c05_rejected_push_then_pop() {
 }
 
 // ------------------------------------------------------------------------------------------------
+// C02 (gate clause) with an additional writer whose ceiling is symbolic - also *below* the
+// specification's maximum: the facade's global max level must admit everything the active
+// specification enables AND everything the additional writer accepts.
+// @verif prop=C02,C13,C05 tier=quick timeout=600 bounds=one-additional-writer(ceiling-symbolic-0..5),initial-and-new-spec{a=L,default=L}-symbolic,one-set_new_spec
+// After set_new_spec the gate is at least the maximum level of the new specification and at least the additional writer's max_log_level - whichever of the two is larger, in particular when the writer's ceiling lies below the specification.
+lh_harness! {
+#[kani::unwind(8)]
+fn c02_gate_covers_spec_and_writer() {
+    vs::link_all();
+    let c = any_rank();
+    vs::cell_set(9, c);
+    vs::cell_set(10, 0);
+    let (a0, d0) = (any_rank(), any_rank());
+    let (a, d) = (any_rank(), any_rank());
+    let h = mk_handle(a0, d0, true);
+    h.set_new_spec(spec_of(a, d));
+    let g = vs::gate_get() as u64;
+    assert!(g >= std::cmp::max(a, d));
+    assert!(g >= c);
+    // and it follows exactly that specification
+    assert!(observed_rank(&h, "ab") == a && observed_rank(&h, "b") == d);
+    kani::cover!(c < std::cmp::max(a, d), "writer ceiling below the specification's maximum");
+    kani::cover!(c > std::cmp::max(a, d), "writer ceiling above the specification's maximum");
+    std::mem::forget(h);
+}
+}
+
+// ------------------------------------------------------------------------------------------------
 // C12: concurrent specification changes. Kani has no threads; the schedule is made a symbolic
 // variable instead. `log::set_max_level` is the moment a set_new_spec call publishes its gate; the
 // stub below is the schedule point: before the gate is written, a second "thread" (a clone of the
